@@ -827,7 +827,7 @@ func (k *ck) fieldErrors() {
 				for ti := 0; ti < c.Scale(3, 4); ti++ {
 					ar := c.RNG(32, uint64(si), uint64(di), uint64(oi), uint64(ti))
 					vars := typedoc.Assignment(ar, m, d, op, ar.U64())
-					o := &values.Outcomes{Seed: ar.U64(), Density: ar.Range(8, 40), Kinds: failKinds}
+					o := &values.Outcomes{Seed: ar.U64(), Density: ar.Range(8, 40), Kinds: failKinds, ErrorForms: true}
 					k.evalField(env, d.AST, text, opName, vars, o)
 				}
 			}
